@@ -4,7 +4,7 @@
    abstraction abs_t and the grid meaning g_step / g_read of the alphabet: Tableabs.v. *)
 From Coq Require Import List ZArith Lia Bool Arith.
 Import ListNotations.
-Require Import Vault Vaultproof Vaultproof2 Vaultproof3 Row Table Grid Tableabs
+Require Import Vault Vaultproof Vaultproof2 Vaultproof3 Vaultproof4 Vaultproof5 Row Table Grid Tableabs
                Tableproof Tableproof2 Tableproof3 Tableproof4 Tableproof5 Tableproof6 Tableproof7 Tableproof8 Tablerefuted.
 Open Scope Z_scope.
 
@@ -56,6 +56,26 @@ Theorem vault_set_map_coherent : forall (A : Type) (p : Z) (x : nat * A) (v : ru
 Proof. exact (@set_map_correct). Qed.
 Print Assumptions vault_set_map_coherent.
 
+(* ... and so are the incremental map updates of insert_item_in_vault and delete_item_in_vault (as written in the code:
+   compositions of _erase_map_once / insert_map_once, resp. the two slice expressions) *)
+Theorem vault_insert_map_coherent : forall (A : Type) (p : Z) (x : nat * A) (v : runs A),
+  wf v -> 0 <= p < Z.of_nat (width v) ->
+  exists v', insert_item p x v (cmap v) = Some v' /\ insert_map p (fst x) (cmap v) = Some (cmap v').
+Proof. exact (@insert_map_correct). Qed.
+Print Assumptions vault_insert_map_coherent.
+
+Theorem vault_delete_map_coherent : forall (A : Type) (p : Z) (v : runs A),
+  wf v -> 0 <= p < Z.of_nat (width v) ->
+  exists v', delete_item p v (cmap v) = Some v' /\ delete_map p (cmap v) = Some (cmap v').
+Proof. exact (@delete_map_correct). Qed.
+Print Assumptions vault_delete_map_coherent.
+
+(* Row.traverse(start, end) (the loop over the map from the run holding start) yields exactly the slice [start, end] *)
+Theorem vault_traverse_range : forall (A : Type) (v : runs A) (start en : Z), wf v -> 0 <= start ->
+  traverse_range start en v = firstn (Z.to_nat (en + 1 - start)) (skipn (Z.to_nat start) (expand v)).
+Proof. exact (@traverse_range_spec). Qed.
+Print Assumptions vault_traverse_range.
+
 (* ---- one step, and every history, of the whole alphabet (15 operations; set_value, set_values, set_cells,
         set_row_values, set_row_cells are instances) ---- *)
 Theorem C01_step : forall (t : tstate) (o : top), WF t -> op_ok o ->
@@ -68,7 +88,7 @@ Theorem C01_history : forall (os : list top) (t : tstate), WF t -> Forall op_ok 
 Proof. exact history_refines. Qed.
 Print Assumptions C01_history.
 
-(* ---- reads: size, single value, row, full matrix, column, row width — live answer = grid answer ---- *)
+(* ---- reads: size, single value, row, full matrix, column, row width, area (get_values(coord)) — live answer = grid answer ---- *)
 Theorem C01_read : forall (t : tstate) (q : tread), WF t -> t_read t q = g_read (abs_t t) q.
 Proof. exact read_refines. Qed.
 Print Assumptions C01_read.
